@@ -486,7 +486,7 @@ func checkClientErrorMapping(c *Ctx) {
 		r.Unres("R10e", "_client.pb.go", "", "unit not found")
 		return
 	}
-	ex := c.Explore(ri.Fn, 1, 4000)
+	ex := c.ExploreT(ri.Fn, 4000)
 	checkedHelpers := false
 	laxReported := false
 	nStrict := 0
